@@ -459,6 +459,39 @@ func execOp(line string) string {
 			res += " RESULT-CHANGED-LATER"
 		}
 		return res
+	case "deliver":
+		// deliver <n> <id> <share> <pub> ... : one member's groupNodeInfo fed with this history
+		if len(w) < 2 || (len(w)-2)%3 != 0 {
+			return "bad-op"
+		}
+		n, ok := tokDec(w[1])
+		if !ok {
+			return "bad-op"
+		}
+		mi := &model.SelfMinerInfo{SecretSeed: base.RandFromBytes([]byte{1})}
+		node := group_create.VerifC13NewNode(mi, common.Hash{}, n)
+		codes := make([]string, 0)
+		for i := 2; i < len(w); i += 3 {
+			x, ok1 := tokNat(w[i])
+			sh, ok2 := tokNat(w[i+1])
+			pb, err := hx.UnHex(w[i+2])
+			if !ok1 || !ok2 || err != nil || x.Cmp(two256) >= 0 || len(pb) != 128 {
+				return "bad-op"
+			}
+			pk := groupsig.ByteToPublicKey(pb)
+			if !pk.IsValid() {
+				return "bad-op"
+			}
+			c := node.HandleSharePiece(idOf(x), &model.SharePiece{Share: secOf(sh), Pub: pk})
+			codes = append(codes, strconv.Itoa(c))
+		}
+		sk := node.SignSecKey()
+		gpk := node.GroupPubKey()
+		gp := "nil"
+		if gpk.IsValid() {
+			gp = hx.Hex(gpk.Serialize())
+		}
+		return strings.Join(codes, ",") + " " + secTok(&sk) + " " + gp
 	case "hashg1":
 		// hashg1 <msg> <reference H(m)>: the code's hash-to-G1 (through Sign(1, m)); the model side
 		// answers with the reference point carried on the line
@@ -642,13 +675,63 @@ func runDkg(seeds [][]byte, ids []*big.Int, ghash common.Hash, rng *hx.Rng) (*dk
 				orderD[i], orderD[x] = orderD[x], orderD[i]
 			}
 		}
-		last := 0
-		for _, i := range orderD {
-			sp := &model.SharePiece{Share: pieces[i][d.ids[j].GetHexString()], Pub: d.seedPub[i]}
-			last = d.nodes[j].HandleSharePiece(d.ids[i], sp)
+		piece := func(i int) *model.SharePiece {
+			return &model.SharePiece{Share: pieces[i][d.ids[j].GetHexString()], Pub: d.seedPub[i]}
 		}
-		if last != 1 {
-			return d, fmt.Sprintf("dkg-incomplete member=%d result=%d", j, last)
+		// a realistic delivery history: every dealer's piece in some order, plus (rng != nil)
+		// re-deliveries of pieces already received (a share-piece request answered while the original
+		// is in flight, network re-delivery), a DIFFERENT piece from a dealer already heard, and
+		// re-deliveries / a non-member's piece after completion. Expected status codes: 0 for a new
+		// sender before the last one, -1 for a sender already present, 1 exactly at the n-th
+		// distinct dealer, 0 / -1 afterwards.
+		var hist []string
+		completedAt := -1
+		deliver := func(sender groupsig.ID, sp *model.SharePiece, want int, what string) string {
+			got := d.nodes[j].HandleSharePiece(sender, sp)
+			hist = append(hist, fmt.Sprintf("%s:%d", what, got))
+			if got != want {
+				return fmt.Sprintf("dkg-delivery member=%d history=%s: %s returned %d, expected %d", j, strings.Join(hist, " "), what, got, want)
+			}
+			return ""
+		}
+		for t, i := range orderD {
+			if rng != nil && t > 0 {
+				switch rng.Intn(4) {
+				case 0: // the same piece again
+					u := orderD[rng.Intn(t)]
+					if e := deliver(d.ids[u], piece(u), -1, fmt.Sprintf("dup(%d)", u)); e != "" {
+						return d, e
+					}
+				case 1: // another piece from a dealer already heard (wrong share, another dealer's key)
+					u := orderD[rng.Intn(t)]
+					sp := &model.SharePiece{Share: pieces[i][d.ids[j].GetHexString()], Pub: d.seedPub[i]}
+					if e := deliver(d.ids[u], sp, -1, fmt.Sprintf("replace(%d)", u)); e != "" {
+						return d, e
+					}
+				}
+			}
+			want := 0
+			if t == n-1 {
+				want = 1
+				completedAt = len(hist)
+			}
+			if e := deliver(d.ids[i], piece(i), want, fmt.Sprintf("piece(%d)", i)); e != "" {
+				return d, e
+			}
+		}
+		_ = completedAt
+		if rng != nil {
+			// after completion: a re-delivery is refused, a stranger's piece is stored but changes nothing
+			u := rng.Intn(n)
+			if e := deliver(d.ids[u], piece(u), -1, fmt.Sprintf("late-dup(%d)", u)); e != "" {
+				return d, e
+			}
+			if rng.Bool() {
+				stranger := idOf(new(big.Int).SetBytes(rng.Bytes(32)))
+				if e := deliver(stranger, piece(u), 0, "late-stranger"); e != "" {
+					return d, e
+				}
+			}
 		}
 		d.msk = append(d.msk, d.nodes[j].SignSecKey())
 		d.gpk = append(d.gpk, d.nodes[j].GroupPubKey())
@@ -665,6 +748,7 @@ type dkgObs struct {
 	GpkAgree    bool
 	First, All  string
 	Direct      string
+	MskBad      int    // first member whose key differs from f(x_j) computed independently (math/big Horner), -1 if none
 	HashDiffers bool   // code's H(m) differs from the reference
 	RefDirect   string // gsk * (reference H(m)), computed without the code's hash-to-G1
 	Twin        string // group signature held by logical.groupSignGenerator ("" when the hook is absent)
@@ -743,7 +827,13 @@ func execDkg(w []string, obs *dkgObs) string {
 		}
 		obs.HashDiffers = true
 	}
-	d, errS := runDkg(seeds, ids, common.BytesToHash(gh), nil)
+	// the delivery history (duplicates, replaced pieces, late deliveries, orders) is a function of the
+	// group hash on the line, so a line replays exactly
+	var hseed uint64 = 1469598103934665603
+	for _, c := range gh {
+		hseed = (hseed ^ uint64(c)) * 1099511628211
+	}
+	d, errS := runDkg(seeds, ids, common.BytesToHash(gh), hx.NewRng(hseed))
 	if errS != "" {
 		return errS
 	}
@@ -807,6 +897,26 @@ func execDkg(w []string, obs *dkgObs) string {
 			}
 			ts := tw.GetGroupSign()
 			obs.Twin = "ok " + sigTok(&ts)
+		}
+		obs.MskBad = -1
+		for j := 0; j < n; j++ {
+			// f(x_j) = sum over dealers of their polynomial at x_j, straight from the line's coefficients
+			x := new(big.Int).Mod(ids[j], order)
+			tot := new(big.Int)
+			for i := 0; i < n; i++ {
+				acc := new(big.Int)
+				for c := k - 1; c >= 0; c-- {
+					cv, _ := tokNat(rest[2*n+i*k+c])
+					acc.Mul(acc, x)
+					acc.Add(acc, cv)
+					acc.Mod(acc, order)
+				}
+				tot.Add(tot, acc)
+			}
+			tot.Mod(tot, order)
+			if tot.Cmp(d.msk[j].GetBigInt()) != 0 && obs.MskBad < 0 {
+				obs.MskBad = j
+			}
 		}
 		obs.GpkAgree = true
 		for j := 0; j < n; j++ {
@@ -1212,6 +1322,68 @@ func (g *gen) genRecover(n int) {
 	}
 }
 
+// delivery histories for one member's groupNodeInfo: duplicates at any point, a different piece from
+// a sender already heard, senders that are not group members (before and after completion), more
+// senders than members, n = 1, shares 0 / unreduced, the keys summing to 0.
+func (g *gen) genDeliver(cnt int) {
+	pub := func() string {
+		return hx.Hex(new(bn.G2).ScalarBaseMult(big.NewInt(int64(1 + g.r.Intn(1000)))).Marshal())
+	}
+	for c := 0; c < cnt; c++ {
+		n := g.r.Pick(1, 2, 3, 3, 4, 5, 7)
+		ids := g.idSet(n+2, g.idClass())
+		type pc struct{ id, sh, pb string }
+		fresh := func(i int) pc { return pc{natTok(ids[i]), natTok(g.scalar()), pub()} }
+		var hist []pc
+		var sent []pc
+		kind := "plain"
+		strangerAt := g.r.Intn(3)
+		for t := 0; t < n; t++ {
+			if t > 0 && g.r.Chance(1, 3) { // re-delivery, or another piece from the same sender
+				u := sent[g.r.Intn(len(sent))]
+				if g.r.Bool() {
+					u = pc{u.id, natTok(g.scalar()), pub()}
+				}
+				hist = append(hist, u)
+				kind = "dups"
+			}
+			if t == n-1 && strangerAt == 0 { // a non-member's piece before the last dealer's
+				p := fresh(n)
+				hist = append(hist, p)
+				sent = append(sent, p)
+				kind = "stranger-before-completion"
+			}
+			p := fresh(t)
+			hist = append(hist, p)
+			sent = append(sent, p)
+		}
+		switch g.r.Intn(4) {
+		case 0: // late re-delivery and a late stranger
+			hist = append(hist, sent[g.r.Intn(len(sent))], fresh(n+1))
+			kind += "+late"
+		case 1: // shares that sum to 0 mod r: aggregateKeys reports failure
+			if n >= 2 && kind == "plain" {
+				tot := new(big.Int)
+				for _, p := range hist[:len(hist)-1] {
+					v, _ := tokNat(p.sh)
+					tot.Add(tot, v)
+				}
+				last := new(big.Int).Mod(new(big.Int).Neg(tot), order)
+				hist[len(hist)-1].sh = natTok(last)
+				kind = "zero-sum"
+			}
+		}
+		w := []string{"deliver", strconv.Itoa(n)}
+		for _, p := range hist {
+			w = append(w, p.id, p.sh, p.pb)
+		}
+		g.count("deliver." + kind)
+		g.emit(strings.Join(w, " "))
+	}
+	g.emit("deliver 0")
+	g.emit("deliver 2")
+}
+
 // hash-to-G1 of the code against the reference, on boundary messages
 func (g *gen) genHash(n int) {
 	for i, m := range g.pool.msgs {
@@ -1546,6 +1718,10 @@ func search(r *hx.Rng, thorough bool, hintLines []string) searchOut {
 		}
 		keySuffix := ""
 		_ = cl
+		if strings.HasPrefix(ans, "dkg-delivery") || strings.HasPrefix(ans, "dkg-incomplete") {
+			addV("dkg-delivery-status-wrong", "handleSharePiece returned an unexpected status on a delivery history with re-deliveries: "+trunc(ans, 300), line)
+			return
+		}
 		if strings.HasPrefix(ans, "PANIC") || !strings.Contains(ans, " ok ") {
 			addV("dkg-run-failed"+keySuffix, "DKG/recovery did not complete: "+trunc(ans, 200), line)
 			return
@@ -1558,6 +1734,9 @@ func search(r *hx.Rng, thorough bool, hintLines []string) searchOut {
 					break
 				}
 			}
+		}
+		if obs.MskBad >= 0 {
+			addV("member-key-is-not-f-of-id", fmt.Sprintf("member %d: the key aggregated by groupNodeInfo differs from f(x_j) computed from the dealers' coefficients", obs.MskBad), line)
 		}
 		if obs.HashDiffers {
 			addV("hash-to-g1-differs-from-reference", "H(m) computed by the code differs from the independent try-and-increment reference", line)
@@ -1681,6 +1860,35 @@ func search(r *hx.Rng, thorough bool, hintLines []string) searchOut {
 			}
 			so.Dist[fmt.Sprintf("search.dkg ids=%s", cl)]++
 			checkDkg(line, cl)
+		}
+	}
+	// directed: a piece from a sender who is not a member of the group arrives before the last
+	// dealer's piece (neither groupNodeInfo nor handleSharePieceMessage tests membership)
+	for _, n := range []int{min, max} {
+		ids := g.idSet(n+1, "hash")
+		tot := new(big.Int)
+		w := []string{"deliver", strconv.Itoa(n)}
+		for t := 0; t <= n; t++ {
+			sh := new(big.Int).Mod(g.bigBytes(40), order)
+			idx := t
+			switch {
+			case t == n-1:
+				idx = n // the stranger
+			case t == n:
+				idx = n - 1 // the last dealer, too late
+			}
+			if idx != n {
+				tot.Add(tot, sh)
+			}
+			w = append(w, natTok(ids[idx]), natTok(sh), hx.Hex(new(bn.G2).ScalarBaseMult(big.NewInt(int64(2+t))).Marshal()))
+		}
+		tot.Mod(tot, order)
+		line := strings.Join(w, " ")
+		ans := hx.Guard(func() string { return execOp(line) })
+		so.Evaluations++
+		so.Dist["search.deliver stranger-before-completion"]++
+		if f := strings.Fields(ans); len(f) == 3 && f[1] != natTok(tot) {
+			addV("dkg-nonmember-piece-counted", "a piece from a non-member delivered before the last dealer's completes the DKG: statuses "+f[0]+", signing key differs from the sum of the "+strconv.Itoa(n)+" dealers' shares", line)
 		}
 	}
 	concurrencyPhase(g, &so, addV, thorough)
@@ -1965,6 +2173,7 @@ func main() {
 	g.genSignGen(30 * scale)
 	g.genG2(12 * scale)
 	g.genHash(20 * scale)
+	g.genDeliver(30 * scale)
 	min, max := model.Param.GroupMemberMin, model.Param.GroupMemberMax
 	if thorough {
 		var sizes []int
